@@ -37,9 +37,10 @@ def outlined_rules(rep, cfg):
                     f, l = mod.loc(ins.dbg)
                     rep.refute('orphan:%s/%s@%s' % (cfg, mod.dem.get(name, name).split('(')[0], l), 'omp-region-structure', '%s:%s' % (front.rel(f), l),
                                'worksharing construct (%s) outside any parallel region of this function: it binds to the caller\'s team, so the result depends on the team the caller is in' % c)
+    # constructs that make the result depend on which thread runs what, or that the one-abstract-thread model cannot follow:
+    # reported as ANALYSIS-INCOMPLETE (the footprint tier still reports any actual conflict as a violation)
     bad_calls = ('omp_get_thread_num', 'omp_get_num_threads', '__kmpc_reduce', '__kmpc_reduce_nowait', '__kmpc_critical',
-                 '__kmpc_atomic', '__kmpc_dispatch_init_8u', '__kmpc_dispatch_init_4u', '__kmpc_dispatch_init_8', '__kmpc_dispatch_init_4',
-                 '__kmpc_single', '__kmpc_master', '__kmpc_ordered')
+                 '__kmpc_atomic', '__kmpc_single', '__kmpc_master', '__kmpc_ordered')
     for caller, ins, out in forks:
         f, l = mod.loc(ins.dbg)
         site = '%s:%s' % (front.rel(f), l)
@@ -51,6 +52,7 @@ def outlined_rules(rep, cfg):
         todo = [out]
         seen = set()
         probs = []
+        unsup = []
         nstores = 0
         while todo:
             g = todo.pop()
@@ -69,19 +71,21 @@ def outlined_rules(rep, cfg):
                     if i2.a[1][0] == 'r' and i2.a[1][1] in derived:
                         probs.append('shared variable %s is written inside the region (%s:%s)' % (i2.a[1][1], front.rel(mod.loc(i2.dbg)[0]), mod.loc(i2.dbg)[1]))
                 if i2.op in ('atomicrmw', 'cmpxchg', 'fence'):
-                    probs.append('atomic operation in the region')
+                    unsup.append('atomic operation in the region')
                 if i2.op in ('call', 'invoke') and i2.a[0][0] == 'g':
                     c = i2.a[0][1][1:]
                     if c in bad_calls:
-                        probs.append('call of %s in the region (thread identity / reduction / dynamic schedule is outside the model)' % c)
+                        unsup.append('call of %s in the region: thread identity / reduction / critical sections are outside the one-abstract-thread model' % c)
                     if c.startswith('__kmpc_for_static_init'):
                         sk = i2.a[3]
                         if sk[0] != 'i' or sk[1] not in (33, 34):
-                            probs.append('schedule kind %r is not static' % (sk,))
+                            unsup.append('static-init schedule kind %r is not modelled' % (sk,))
                     if c.startswith('.omp_outlined.'):
                         todo.append(c)
         if probs:
             rep.refute(tag, 'omp-region-structure', site, '; '.join(sorted(set(probs))[:3]))
+        elif unsup:
+            rep.incomplete(tag, 'omp-region-structure', site, '; '.join(sorted(set(unsup))[:3]))
         else:
             rep.ok(tag, 'omp-region-structure', site, 'no captured variable written, no thread-identity / reduction / dynamic-schedule construct, static schedule')
     return len(forks)
